@@ -26,14 +26,16 @@ PROBES = {
             "cutoff_restored_checked", "exogenous_data", "stale_batch", "failed_call_injected",
             "batching_invariance_checked", "labels_after_stale_checked",
             "same_integers_other_kind", "frozen_model_same_time_points_checked",
-            "components_reused_elsewhere", "remembered_absolute_horizon_reused"],
+            "components_reused_elsewhere", "remembered_absolute_horizon_reused",
+            "labels_after_update_predict_checked"],
     "C03": ["gapped_fh", "absolute_fh", "fh_at_fit", "fh_reused_across_cutoffs",
             "predict_after_update", "shifted_twin_checked", "gapped_vs_contiguous_checked",
             "exogenous_data", "stale_batch", "failed_call_injected", "unsorted_fh", "fh_as_index",
             "labels_after_stale_checked",
             "int_index_nonzero_origin", "negative_origin", "composite_depth2",
             "tuned_forecaster", "same_integers_other_kind", "components_reused_elsewhere",
-            "frozen_model_same_time_points_checked", "remembered_absolute_horizon_reused"],
+            "frozen_model_same_time_points_checked", "remembered_absolute_horizon_reused",
+            "labels_after_update_predict_checked"],
 }
 FAULT_KINDS = {
     "C10": ["overlap_batch", "empty_batch", "pickle_roundtrip", "schedule_ooo",
@@ -739,8 +741,13 @@ class Engine:
             return
         if self.after_upd:
             # right after update_predict the cutoff is restored while data and fitted
-            # parameters are those of the last window; neither property speaks about
-            # forecasts made in that state (DESIGN.md, C10 notes)
+            # parameters are those of the last window: the VALUES of forecasts made in that
+            # state are not judged (DESIGN.md, C10 notes), their LABELS are - a forecaster
+            # (and every part of a composite) answers from the cutoff it reports
+            if fhs is not None and not fhs.get("abs") and not self.stale_state \
+                    and not C.needs_fh_at_fit(self.spec):
+                self.res.probe("labels_after_update_predict_checked")
+                self.labels_after_stale(i, fhs)
             return
         self.predict_and_check(i, fhs)
 
@@ -927,6 +934,20 @@ class Engine:
             before = actor.f.cutoff
             out = actor.f.update_predict(b, cv, update_params=up)
             return out, b, before, actor.f.cutoff
+        if self.after_upd:
+            # a second rolling call made from the state right after update_predict (cutoff
+            # restored, data and window length of the last window): whether the forecaster can
+            # forecast from there is not judged (DESIGN.md, C10 notes) - the seasonal-mean
+            # NaiveForecaster cannot - so a failure here ends the history without a verdict
+            try:
+                with peers.paused():
+                    probe_ = pickle.loads(pickle.dumps(a.f))
+                    b_ = a.batch(a.pos, a.pos + take)
+                    probe_.update_predict(b_, None if cvs is None else C.build_cv(cvs), update_params=up)
+            except Exception as e:  # noqa
+                self.note("upd_from_restored_state_raised", type(e).__name__)
+                self.dead = True
+                return
         outs = self.call("update_predict", do)
         if outs is None:
             return
